@@ -515,7 +515,7 @@ func ruleValid(r ruleT) bool {
 		return false
 	}
 	t := float64(r.Trigger)
-	if t < 0 || r.Metric >= 5 {
+	if math.IsNaN(t) || t < 0 || r.Metric >= 5 {
 		return false
 	}
 	if r.Metric == 4 && t > 1 {
